@@ -195,6 +195,29 @@ def params(sh):
                lambda val=val: detect_bursts_amp(dfa.copy(), burst_fraction_threshold=val)),
               ('thr|compute_features(amp) burst_fraction_threshold=%r' % val, exp,
                lambda val=val: compute_features(sig, FS, FR, burst_method='amp', threshold_kwargs={'burst_fraction_threshold': val}))]
+    # invalid thresholds must also surface through the group entry points (raised inside pool workers) and the group object
+    for val, exp in ((-0.5, 'reject'), (1.5, 'reject'), (0.5, 'accept')):
+        kw = {'threshold_kwargs': {'amp_consistency_threshold': val}}
+        P += [('thr|compute_features_2d axis=0 amp_consistency_threshold=%r' % val, exp,
+               lambda kw=kw: compute_features_2d(s2, FS, FR, compute_features_kwargs=copy.deepcopy(kw), n_jobs=2)),
+              ('thr|compute_features_2d axis=None amp_consistency_threshold=%r' % val, exp,
+               lambda kw=kw: compute_features_2d(s2, FS, FR, compute_features_kwargs=copy.deepcopy(kw), axis=None, n_jobs=1)),
+              ('thr|compute_features_2d per-row list amp_consistency_threshold=%r' % val, exp,
+               lambda kw=kw: compute_features_2d(s2, FS, FR, compute_features_kwargs=[{}, copy.deepcopy(kw)], n_jobs=2)),
+              ('thr|compute_features_3d axis=(0,1) amp_consistency_threshold=%r' % val, exp,
+               lambda kw=kw: compute_features_3d(s3, FS, FR, compute_features_kwargs=copy.deepcopy(kw), axis=(0, 1), n_jobs=2)),
+              ('thr|compute_features_3d axis=1 amp_consistency_threshold=%r' % val, exp,
+               lambda kw=kw: compute_features_3d(s3, FS, FR, compute_features_kwargs=copy.deepcopy(kw), axis=1, n_jobs=1)),
+              ('thr|BycycleGroup.fit amp_consistency_threshold=%r' % val, exp,
+               lambda val=val: BycycleGroup(thresholds={'amp_consistency_threshold': val}).fit(s2, FS, FR, n_jobs=1))]
+    for val in ('middle', None):
+        P += [('center_extrema|compute_features_2d %r' % (val,), 'reject',
+               lambda val=val: compute_features_2d(s2, FS, FR, compute_features_kwargs={'center_extrema': val}, n_jobs=1)),
+              ('center_extrema|BycycleGroup.fit %r' % (val,), 'reject', lambda val=val: BycycleGroup(center_extrema=val).fit(s2, FS, FR, n_jobs=1))]
+    P += [('burst_method|compute_features_2d', 'reject',
+           lambda: compute_features_2d(s2, FS, FR, compute_features_kwargs={'burst_method': 'consistency'}, n_jobs=1)),
+          ('fs|compute_features_3d fs=-1', 'reject', lambda: compute_features_3d(s3, -1., FR, n_jobs=1)),
+          ('fs|BycycleGroup.fit fs=-1', 'reject', lambda: BycycleGroup().fit(s2, -1., FR, n_jobs=1))]
     # min_n_cycles
     for val, exp in ((-1, 'reject'), (-eps, 'reject'), (0, 'accept'), (1, 'accept')):
         P += [('min_n_cycles|check_min_burst_cycles %r' % val, exp,
